@@ -1,5 +1,7 @@
 // Replay: DbGrid::resetFromPolygon handed four uninitialised doubles to Polygons::getExtension, which only UPDATED them
 // (`if (xmin_loc < *xmin) ...`): the grid "covering" the polygon depended on what earlier calls had left on the stack.
+// The stack content is not controllable from here: run under `valgrind -q --error-exitcode=3` (memcheck reports the
+// conditional jumps on uninitialised values in Polygons::getExtension before the repair, nothing after).
 #include "Db/DbGrid.hpp"
 #include "Polygon/Polygons.hpp"
 #include "Polygon/PolyElem.hpp"
